@@ -267,6 +267,23 @@ def r4_container(rep, ctx):
         txt = ast.unparse(e).replace(" ", "")
         return {"self.iterate_1st": "it1", "self.iterate_2nd": "it2", "isinstance(self.p1,tuple)": "t1", "isinstance(self.p2,tuple)": "t2"}.get(txt)
 
+    def holds_bool(field):
+        """every store to self.<field> in the class is an expression that yields a real bool"""
+        def is_bool(v):
+            if isinstance(v, ast.Constant):
+                return isinstance(v.value, bool)
+            if isinstance(v, ast.Compare):
+                return True
+            if isinstance(v, ast.UnaryOp) and isinstance(v.op, ast.Not):
+                return True
+            if isinstance(v, ast.BoolOp):
+                return all(is_bool(x) for x in v.values)
+            return isinstance(v, ast.Call) and isinstance(v.func, ast.Name) and v.func.id in ("isinstance", "bool", "issubclass", "callable", "hasattr")
+        stores = [st for f_ in m.funcs.values() if f_.cls == "_ValueGenerator" for st in own_nodes(f_.node)
+                  if isinstance(st, (ast.Assign, ast.AnnAssign, ast.AugAssign)) and any(isinstance(t_, ast.Attribute) and t_.attr == field for t_ in (st.targets if isinstance(st, ast.Assign) else [st.target]))]
+        return bool(stores) and all(isinstance(st, (ast.Assign, ast.AnnAssign)) and st.value is not None and is_bool(st.value) for st in stores)
+
+    atom_of.boolean = {"t1", "t2"} | ({"it1"} if holds_bool("iterate_1st") else set()) | ({"it2"} if holds_bool("iterate_2nd") else set())
     try:
         tt = booleval.truth_table(it.node, atoms, atom_of)
     except booleval.Unknown as e:
